@@ -39,7 +39,7 @@ MUTANTS = [
     ("sel-compl-all", ["C18"], CM, r"case AllSel\(\):\n                return Selection.none\(\)", "case AllSel():\n                return Selection.all()"),
     # ---- staging (C20, C23)
     ("flag-or-and", ["C20", "C19", "C23"], ST, r"return f \| g", "return f & g"),
-    ("flag-where-swap", ["C20", "C19", "C23"], ST, r"return jax.lax.select\(f, tf, ff\)", "return jax.lax.select(f, ff, tf)"),
+    ("flag-where-swap", ["C20", "C19", "C23"], ST, r"return jnp.where\(f, tf, ff\)", "return jnp.where(f, ff, tf)"),
     ("choose-clip", ["C20", "C23"], ST, r'mode="wrap"', 'mode="clip"'),
     ("mswitch-slot0", ["C20"], ST, r"shapes\[static_idx\] = f\(\*args\)", "shapes[0] = f(*args)"),
     ("flag-not-ident", ["C20", "C19", "C23"], ST, r"case True:\n                return False\n            case False:\n                return True", "case True:\n                return True\n            case False:\n                return False"),
@@ -50,7 +50,7 @@ MUTANTS = [
     ("mask-oridx", ["C19", "C23"], FT, r"return first \+ 2 \* FlagOp", "return first + FlagOp"),
     ("mask-xor-swap", ["C19", "C23"], FT, r"case True, False:\n                return self\n            case False, True:\n                return other", "case True, False:\n                return other\n            case False, True:\n                return self"),
     ("mask-xor-flag-or", ["C19", "C23"], FT, r"return Mask\(chosen, FlagOp.xor_\(self_flag, other_flag\)\)", "return Mask(chosen, FlagOp.or_(self_flag, other_flag))"),
-    ("mask-unmask-swap", ["C19", "C23"], FT, r"return jnp.where\(self.primal_flag\(\), true_v, false_v\)", "return jnp.where(self.primal_flag(), false_v, true_v)"),
+    ("mask-unmask-swap", ["C19", "C23"], FT, r"return jnp.where\(flag, true_v, false_v\)", "return jnp.where(flag, false_v, true_v)"),
     ("mask-flatten-swap", ["C19", "C23"], FT, r"if FlagOp.concrete_false\(flag\):\n            return None\n        elif FlagOp.concrete_true\(flag\)", "if FlagOp.concrete_true(flag):\n            return None\n        elif FlagOp.concrete_false(flag)"),
     # ---- incremental / stateful / isp (C08, C09, C36)
     ("prop-check-after-strip", ["C08", "C09", "C21"], INC, r"check = Diff.static_check_no_change\(args\)\n    args = Diff.tree_primal\(args\)", "args = Diff.tree_primal(args)\n    check = Diff.static_check_no_change(args)"),
@@ -105,7 +105,7 @@ MUTANTS = [
     ("static-project-skip", ["C10"], STATIC, r"subprojection = selection\(addr\)", "subprojection = selection"),
     ("static-gen-noweight", ["C03"], STATIC, r"\(tr, w\) = gen_fn.generate\(sub_key, subconstraint, args\)\n        self.weight \+= w", "(tr, w) = gen_fn.generate(sub_key, subconstraint, args)\n        self.weight = w"),
     ("static-key-noincr", ["C04"], STATIC, r"new_key = jax.random.fold_in\(self.key, self.key_counter\)\n        self.key_counter \+= 1\n        return new_key\n\n    def yield_state\(self\):\n        return self.traces", "new_key = jax.random.fold_in(self.key, self.key_counter)\n        return new_key\n\n    def yield_state(self):\n        return self.traces"),
-    ("static-record-after", ["C22"], STATIC, r"if addr in self.traces:\n            raise AddressReuse\(addr\)\n        self.traces\[addr\] = trace", "self.traces[addr] = trace\n        if addr in self.traces and False:\n            raise AddressReuse(addr)"),
+    ("static-record-after", ["C22"], STATIC, r"self.visit\(addr\)\n        self.traces\[addr\] = trace", "self.traces[addr] = trace\n        self.visit(addr)"),
     ("static-assess-nomissing", ["C22"], STATIC, r"if submap.static_is_empty\(\):\n            raise MissingAddress\(addr\)\n", ""),
     ("closure-assess-noprefix", ["C32"], GF, r"return self.gen_fn.assess\(sample, full_args\)", "return self.gen_fn.assess(sample, args)"),
     # NB: `retval = self.simulate(key, args).get_retval()` (same key) is behaviour-preserving in pure JAX and the evaluator correctly treats it as equal; the mutant uses another key
